@@ -63,6 +63,8 @@ class ImpTr:
             if isinstance(e, tuple) and e and e[0] == 'call':
                 for n in self.mutating_call(e):
                     add(n)
+                if e[1][0] == 'path' and e[1][1] in self.em.closures:
+                    walk(self.em.closures[e[1][1]][2])
             for x in e:
                 walk(x)
         walk(node)
@@ -133,12 +135,25 @@ class ImpTr:
             return Emitter.wrap_binds(binds, 'Ok (Ret %s)' % v)
         raise Unsupported("return inside a block translated without early exit")
 
+    def err_code(self, e):
+        """error kind from the message text (the harness classifies the runtime message the same way)"""
+        if not self.err_kinds:
+            return 0
+        txt = repr(e)
+        for needle, code in self.err_kinds:
+            if needle in txt:
+                return code
+        return self.err_default
+
+    err_kinds = None
+    err_default = 0
+
     def is_diverge(self, e):
         """expression that always errors/panics -> res term or None"""
         if e[0] == 'macro' and e[1] in ('panic', 'unreachable', 'unimplemented'):
             return 'Panic 0'
         if e[0] == 'try' and e[1][0] == 'call' and show(e[1][1]) in ('reject', 'Err'):
-            return 'Err 0'
+            return 'Err %d' % self.err_code(e)
         if e[0] == 'try' and e[1][0] == 'macro' and e[1][1] == 'Err':
             return 'Err 0'
         if e[0] in ('block', 'unsafe'):
@@ -166,12 +181,17 @@ class ImpTr:
             return self.finish(mode, names)
         st, rest = sts[0], sts[1:]
         k = lambda: self.stmts(rest, mode, names, tail_value)  # noqa: E731
+        if st[0] in ('stmt', 'tail', 'let') and any('rbpf_verif' in a for a in st[-1 if st[0] != 'let' else 5] or []):
+            return k()   # verification hook statement: not part of the program's behaviour
         if self.stmt_hook:
             r = self.stmt_hook(self, st, k, mode, names)
             if r is not None:
                 return r
         kind = st[0]
-        if kind in ('const', 'macro_rules'):
+        if kind == 'macro_rules':
+            self.register_macro(st)
+            return k()
+        if kind == 'const':
             return k()
         if kind == 'let' and st[1][0] == 'pwild' and st[3] is not None and st[3][0] in ('if', 'match', 'block', 'unsafe'):
             return self.compound(st[3], k, mode, names)
@@ -234,6 +254,23 @@ class ImpTr:
         raise Unsupported("statement kind %s" % kind)
 
     last_type = None
+
+    def register_macro(self, st):
+        """macro_rules! name { ($x:expr) => { BODY }; }  (one rule, one expression parameter)"""
+        raw = st[2]
+        p = Parser(raw + [('eof', '', None, -1)])
+        p.eat('(')
+        p.eat('$')
+        param = p.eat()[1]
+        p.eat(':')
+        if p.eat()[1] != 'expr':
+            raise Unsupported("macro parameter kind")
+        p.eat(')')
+        p.eat('=>')
+        body = p.block()
+        if len(body[1]) != 1 or body[1][0][0] != 'tail':
+            raise Unsupported("macro body is not a single expression")
+        self.em.macros[st[1]] = ('$' + param, body[1][0][1])
 
     def let_stmt(self, st, k):
         em = self.em
@@ -473,7 +510,7 @@ class ImpTr:
         """`while c { body }` -> MachInt.loop over the variables the body assigns; needs a `fuel` parameter"""
         em = self.em
         body = e[2]
-        a = self.assigned_outer(body)
+        a = self.force_loop_state or self.assigned_outer(body)
         saved = dict(em.locals)
         c, _ = em.expr(e[1])
         cb = em.take_binds()
@@ -482,8 +519,12 @@ class ImpTr:
         ctl = self.has_return(body)
         b = self.block(body, 'ctl' if ctl else 'plain', a)
         em.locals = saved
-        fc = '(fun %s => %s)' % (self.pat_of(a), cond)
-        fb = '(fun %s => %s)' % (self.pat_of(a), b)
+        if self.loop_state_type:
+            fc = "(fun (s_ : %s) => let %s := s_ in %s)" % (self.loop_state_type, self.pat_of(a), cond)
+            fb = "(fun (s_ : %s) => let %s := s_ in %s)" % (self.loop_state_type, self.pat_of(a), b)
+        else:
+            fc = '(fun %s => %s)' % (self.pat_of(a), cond)
+            fb = '(fun %s => %s)' % (self.pat_of(a), b)
         if self.loop_name:
             # emit the loop condition and body as named definitions (closed over `loop_params`)
             n = self.loop_name + ('' if not self.nloops else str(self.nloops))
@@ -500,6 +541,8 @@ class ImpTr:
 
     uses_fuel = False
     loop_name = None
+    force_loop_state = None
+    loop_state_type = None
     nloops = 0
     loop_params = ''
 
